@@ -32,4 +32,10 @@ CHECKS = {
         "text": "Every integer width 1..72 and 128 in every signedness/byte-order, and every supported float format, is decoded from generated XTCE documents at every bit offset, for all bit patterns of narrow fields (all 2^16 binary16 patterns) and a boundary/walking family for wide ones; values, kinds, raw values and the following sentinel are compared with the reference.",
         "note": "Wide fields are covered structurally, not for all 2^w patterns; the oracle uses Fraction arithmetic, not struct.",
     },
+    "C06": {
+        "level": "exploration",
+        "technique": "exhaustive truth-table enumeration of Comparison/Condition/BooleanExpression/DiscreteLookup through the public evaluate() API, plus the same criteria as RestrictionCriteria in generated documents routed through the real container walk, against a mathematical reference",
+        "text": "The full truth table of all six relations in all 16 spellings over value/raw/literal alphabets that contain falsy values and int-vs-float pairs, every AND/OR tree up to the bound under every assignment, and several hundred restriction criteria of every form (read from XML and built from objects) over a packet family are evaluated; each result must be exactly True/False as the relation dictates.",
+        "note": "Literals that cannot be coerced, bytes operands and references to not-yet-decoded parameters are unspecified and outside the alphabet.",
+    },
 }
